@@ -4,6 +4,7 @@ mod ast;
 mod proto;
 mod rng;
 mod run;
+mod c01;
 mod c04;
 mod c05;
 mod c06;
@@ -49,6 +50,7 @@ fn main() {
     std::panic::set_hook(Box::new(|_| {}));
     let mut ctx = Ctx { tier_thorough: args[2] == "thorough", seed: args[3].parse().unwrap_or(0), out: Vec::new() };
     match args[1].as_str() {
+        "C01" => c01::run(&mut ctx),
         "C04" => c04::run(&mut ctx),
         "C05" => c05::run(&mut ctx),
         "C06" => c06::run(&mut ctx),
